@@ -52,7 +52,8 @@ for c in spec:
         try:
             with contextlib.redirect_stdout(io.StringIO()):
                 flipjump.assemble([Path(c["src"])], out, memory_width=c["w"], fjm_version=FJMVersion(c["version"]), use_stl=c.get("stl", False),
-                                  print_time=False, warning_as_errors=False)
+                                  print_time=False, warning_as_errors=False,
+                                  debugging_file_path=(Path(str(out) + ".fjd") if c.get("dbg") else None))
         finally:
             signal.setitimer(signal.ITIMER_PROF, 0)
     except _Hang:
@@ -313,6 +314,18 @@ CHECK_DEADLOCK FALSE
             (d / "p.fj").write_bytes(raw)
             cases.append({"id": i, "src": str(d / "p.fj"), "out": str(d / "p.fjm"), "w": 64, "version": 3, "stl": False, "risky": True})
             meta[i] = ({"kind": "mutated", "site": site, "w": 64, "version": 3}, raw.decode("latin-1"), [])
+        # long but ordinary programs: an expression of 600 terms, numbers beyond 4300 decimal digits (a literal, a constant shift,
+        # a far label written to the debugging file)
+        sized = (("longexpr", ";" + "+".join(["a"] * 600) + "\na:\n", False), ("bigdecimal", ";" + "1" * 4301 + "\n", False),
+                 ("bigconst", ";1<<20000\n", False), ("farlabel", "loop: ;loop\nsegment (1<<14400)*64\nfar:\n", True),
+                 ("farlabel-nodebug", "loop: ;loop\nsegment (1<<14400)*64\nfar:\n", False))
+        for site, text, dbg in sized:
+            i = len(cases)
+            d = base / f"z{site}"
+            d.mkdir()
+            (d / "p.fj").write_text(text)
+            cases.append({"id": i, "src": str(d / "p.fj"), "out": str(d / "p.fjm"), "w": 64, "version": 3, "stl": False, "dbg": dbg})
+            meta[i] = ({"kind": "mutated", "site": site, "w": 64, "version": 3}, text[:300], [])
         results = run_children(cases, base)
     finally:
         shutil.rmtree(base, ignore_errors=True)
